@@ -11,6 +11,13 @@ EXTENDS MCBase
 R17 == Corpus("R17")
 D17 == Corpus("D17")
 NR == Len(R17)
+\* cross-talk family: ONE leaf value sent through operators of DIFFERENT coercion families (parseFloat-style + *,
+\* Number-style - max, ==, <, the string form, deep membership) in successive calls of the same thread - what a
+\* memo table keyed by a part of the input (a string, a node address) would confuse
+RX17 == Corpus("RX17")
+DX17 == Corpus("DX17")
+NX == Len(RX17)
+NDX == Len(DX17)
 ND == Len(D17)
 \* the shared pool: every rule paired with every data value
 \* a deep rule: DeepLevels nested {"+":[X,1]} around {"var":"a"} (JSON depth 2*DeepLevels+2 <= 128). Too deep for the
@@ -21,11 +28,17 @@ RECURSIVE DeepVal(_), DeepTxt(_)
 DeepVal(n) == IF n = 0 THEN VarOf(S_a17) ELSE Op(K_add, <<DeepVal(n - 1), IntV(1)>>)
 DeepTxt(n) == IF n = 0 THEN "{\"var\":\"a\"}" ELSE "{\"+\":[" \o DeepTxt(n - 1) \o ",1]}"
 \* the shared pool: every rule paired with every data value, then the deep rule paired with every data value
-PoolDef == [q \in 1..(NR * ND + ND) |->
+PoolDef == [q \in 1..(NR * ND + ND + NX * NDX) |->
               IF q <= NR * ND THEN [rule |-> R17[((q - 1) \div ND) + 1], data |-> D17[((q - 1) % ND) + 1]]
-              ELSE [rule |-> DeepVal(DeepLevels), data |-> D17[q - NR * ND]]]
+              ELSE IF q <= NR * ND + ND THEN [rule |-> DeepVal(DeepLevels), data |-> D17[q - NR * ND]]
+              ELSE LET z == q - NR * ND - ND IN [rule |-> RX17[((z - 1) \div NDX) + 1], data |-> DX17[((z - 1) % NDX) + 1]]]
 Ix(r, d) == (r - 1) * ND + d
 DeepIx(d) == NR * ND + d
+XIx(r, d) == NR * ND + ND + (r - 1) * NDX + d
+\* every ORDERED pair (r1, r2) of cross rules on the same data value, one pair after the other
+CrossProg(d) == [j \in 1..(2 * NX * NX) |->
+                   LET pr == (j - 1) \div 2 IN
+                   IF j % 2 = 1 THEN XIx((pr \div NX) + 1, d) ELSE XIx((pr % NX) + 1, d)]
 BigT == IOEnv.VERIF_FAMILY \in {"T8", "T16"}
 ThreadsDef == CASE IOEnv.VERIF_FAMILY = "T3" -> {1, 2, 3}
                 [] IOEnv.VERIF_FAMILY = "T8" -> 1..8
@@ -56,6 +69,8 @@ DeepProgs == { <<DeepIx(1), DeepIx(2), DeepIx(1)>>, <<DeepIx(2), DeepIx(1)>>, <<
 Rep(x, n) == [j \in 1..n |-> x]
 Dotted == [t \in ThreadsDef |-> Rep(Ix(17 + (t % 3), 7), 30)]
 BigAssignments == {[t \in ThreadsDef |-> p] : p \in DeepProgs \cup Aliasing} \cup {Dotted}
+                  \cup {[t \in ThreadsDef |-> CrossProg(d)] : d \in 1..NDX}
+                  \cup {[t \in ThreadsDef |-> CrossProg(((t + d) % NDX) + 1)] : d \in 1..2}
                   \cup {[t \in ThreadsDef |-> IF t % 2 = 0 THEN p ELSE q] : p \in DeepProgs, q \in Aliasing}
 Init == /\ Programs \in (CASE IOEnv.VERIF_FAMILY = "T3" -> [ThreadsDef -> ProgSet3]
                            [] BigT -> BigAssignments
@@ -91,7 +106,7 @@ ThreadSeq == [q \in 1..Cardinality(ThreadsDef) |-> q]
 ExportHistories ==
   IsInitial /\ stdout = <<>> =>
     ExportLine(ToJson([pool |-> [q \in 1..Len(PoolDef) |->
-                                   IF q <= NR * ND THEN [rule |-> PoolDef[q].rule, rule_text |-> "", data |-> PoolDef[q].data]
+                                   IF q <= NR * ND \/ q > NR * ND + ND THEN [rule |-> PoolDef[q].rule, rule_text |-> "", data |-> PoolDef[q].data]
                                    ELSE [rule |-> Null, rule_text |-> DeepTxt(DeepLevels), data |-> PoolDef[q].data]],
                        threads |-> [q \in DOMAIN ThreadSeq |-> Programs[ThreadSeq[q]]],
                        exp |-> [q \in 1..Len(PoolDef) |-> LET e == Eval(PoolDef[q].rule, PoolDef[q].data) IN [ok |-> e.ok, v |-> e.v, log |-> e.log]],
